@@ -389,12 +389,37 @@ bool StepExtended(ScriptExecutionEnvironment& env, CScript::const_iterator& pc, 
         {
             CScriptNum num1(vch1, env.fRequireMinimal, 5);
             CScriptNum num2(vch2, env.fRequireMinimal, 5);
+            const int64_t a = num1.GetInt64();
+            const int64_t b = num2.GetInt64();
             switch (env.opcode) {
-            case OP_MUL: num1 = num1 * num2; break;
-            case OP_DIV: num1 = num1 / num2; break;
-            case OP_MOD: num1 = num1 % num2; break;
-            case OP_LSHIFT: num1 = num1 << num2; break;
-            case OP_RSHIFT: num1 = num1 >> num2; break;
+            case OP_MUL:
+                // operands are at most 5 bytes (< 2^39) each; refuse products that do not fit
+                if (a != 0 && (b < 0 ? -b : b) > std::numeric_limits<int64_t>::max() / (a < 0 ? -a : a)) return set_error(serror, SCRIPT_ERR_UNKNOWN_ERROR);
+                num1 = num1 * num2;
+                break;
+            case OP_DIV:
+                if (b == 0) return set_error(serror, SCRIPT_ERR_UNKNOWN_ERROR);
+                num1 = num1 / num2;
+                break;
+            case OP_MOD:
+                if (b == 0) return set_error(serror, SCRIPT_ERR_UNKNOWN_ERROR);
+                num1 = num1 % num2;
+                break;
+            case OP_LSHIFT: {
+                // a * 2^b, refused when the shift count is negative or the result does not fit
+                if (b < 0) return set_error(serror, SCRIPT_ERR_UNKNOWN_ERROR);
+                if (a == 0) break; // zero stays zero for any shift count
+                if (b > 62) return set_error(serror, SCRIPT_ERR_UNKNOWN_ERROR);
+                const uint64_t mag = a < 0 ? (uint64_t)-a : (uint64_t)a;
+                if (mag > ((uint64_t)std::numeric_limits<int64_t>::max() >> b)) return set_error(serror, SCRIPT_ERR_UNKNOWN_ERROR);
+                const int64_t shifted = (int64_t)(mag << b);
+                num1 = a < 0 ? -shifted : shifted;
+                break;
+            }
+            case OP_RSHIFT:
+                if (b < 0) return set_error(serror, SCRIPT_ERR_UNKNOWN_ERROR);
+                num1 = num1 >> CScriptNum(b > 63 ? 63 : b);
+                break;
             default: assert(0);
             }
             vch1 = num1.getvch();
